@@ -16,14 +16,17 @@ EXTENDS MeshOps, Json
 
 Trace == ndJsonDeserialize("trace.ndjson")
 
-VARIABLES l, pool
-vars == <<l, pool>>
+VARIABLES l, pool, judged      \* judged: op -> number of steps judged by value (anti-vacuity)
+vars == <<l, pool, judged>>
 
-Init == l = 1 /\ pool = <<>>
+Init == l = 1 /\ pool = <<>> /\ judged = <<>>
+
+Bump(f, k) == IF k \in DOMAIN f THEN [f EXCEPT ![k] = @ + 1] ELSE [x \in DOMAIN f \cup {k} |-> IF x = k THEN 1 ELSE f[x]]
+Summary(j) == IF l = Len(Trace) THEN PrintT(ToJson([judged |-> j])) ELSE TRUE
 
 Reset ==
     /\ l <= Len(Trace) /\ Trace[l].k = "reset"
-    /\ pool' = Trace[l].pool
+    /\ pool' = Trace[l].pool /\ judged' = judged /\ Summary(judged)
     /\ l' = l + 1
 
 Step ==
@@ -38,6 +41,8 @@ Step ==
              ELSE PrintT(ToJson([l |-> l, bad |-> bad,
                     exp |-> IF Pre(ln.step, pool) THEN Core(Expect(ln.step, pool)) ELSE Core(NullMesh)]))
           /\ pool' = after
+          /\ LET j2 == IF Pre(ln.step, pool) THEN Bump(judged, ln.step.op) ELSE judged
+             IN judged' = j2 /\ Summary(j2)
     /\ l' = l + 1
 
 Next == Reset \/ Step
